@@ -372,7 +372,10 @@ fn oracle_nhdr(case: &[u8], obs: &mut Obs) -> Result<(), String> {
             }
         }
         Some(Note::Unknown(a)) => {
-            if (gnu && (n_type == 1 || n_type == 3)) || a.n_type != n_type as u64 || a.name != &name[..] || a.desc != &desc[..] {
+            // (a "GNU" type-1 record whose descriptor is too short for an ABI tag is outside the statements: ending
+            // the iteration there or handing it out untyped with its exact bytes are both faithful; a typed tag is not)
+            let short_tag = gnu && n_type == 1 && dl < 16;
+            if (gnu && (n_type == 1 || n_type == 3) && !short_tag) || a.n_type != n_type as u64 || a.name != &name[..] || a.desc != &desc[..] {
                 return Err(format!("{}: decoded {:?}", ctx, a));
             }
         }
